@@ -1,6 +1,7 @@
 #!/bin/sh
-# TLC with the /verif/spec library path; serial GC (parallel GC burns system time
-# when several TLC instances share the machine); deep recursion allowed.
-exec java -XX:+UseSerialGC -Xss1g ${TLC_HEAP:--Xmx6g} -DTLA-Library=/verif/spec:/verif/mc \
+# TLC with this checkout's spec/ and mc/ as library path; serial GC (parallel GC burns system
+# time when several TLC instances share the machine); deep recursion allowed.
+D=$(cd "$(dirname "$0")/.." && pwd)
+exec java -XX:+UseSerialGC -Xss1g ${TLC_HEAP:--Xmx6g} -DTLA-Library=$D/spec:$D/mc \
   ${TLC_DEQUE:+-Dtlc2.tool.queue.IStateQueue=StateDeque} \
   -cp /opt/veriftools/tla/tla2tools.jar:/opt/veriftools/tla/CommunityModules-deps.jar tlc2.TLC "$@"
